@@ -332,7 +332,9 @@ class Explorer:
         reals = [v for v in self.vars.values() if z3.is_real(v)]
         if not reals:
             return None
-        for k, bound in ((4, 64), (16, 2 ** 20)):
+        # (k, bound): every real is a multiple of 2^-k with |v| <= bound; the last two stages are for violations that need values or
+        # differences below one ulp of 1 (m * 2^-k with m < 2^53 is an exact double)
+        for k, bound in ((4, 64), (16, 2 ** 20), (60, z3.Q(1, 2 ** 8)), (110, z3.Q(1, 2 ** 58))):
             cons = [z3.IsInt(v * (2 ** k)) for v in reals] + [z3.And(v <= bound, v >= -bound) for v in reals]
             self.solver.push()
             try:
